@@ -58,11 +58,52 @@ def expected_vs_real(e, n):
     return diffs
 
 
+DOC_ACCESSORS = [("author", "GetCommentAuthor"), ("version", "GetCommentVersion"), ("since", "GetCommentSince"), ("see", "GetCommentSee"),
+                 ("throws", "GetCommentThrows"), ("return", "GetCommentReturn")]
+
+
+def javadoc_accessors(run, h, ents, real, text, stats):
+    """the *queryable* Javadoc attributes: alias.getDoc().GetCommentX() evaluated by the real engine on the scanned
+    graph. A single-valued accessor yields the first tag of that name as written (what the accessors document and
+    model/javadoc_test.go pins), GetCommentParam all @param texts in source order; an entity without Javadoc yields
+    empty values."""
+    by_loc = {}
+    for e in ents:
+        if e["kind"] in ("class_declaration", "method_declaration"):
+            by_loc[(e["kind"], e["line"], e["snippet"])] = e
+    nodes = {n["id"]: n for n in real["nodes"]}
+    for kind in ("class_declaration", "method_declaration"):
+        sel = ", ".join("x.getDoc().%s()" % a for _, a in DOC_ACCESSORS) + ", x.getDoc().GetCommentParam()"
+        r = h.call(op="query-entities", graph="attrs", q="FROM %s AS x SELECT %s" % (kind, sel), timeout=120)
+        if r.get("outcome") != "ok":
+            run.violation("C05:javadoc-accessors-abnormal", "selecting the Javadoc accessors of every %s ends with %s" % (kind, r.get("outcome")), dict(source=text, detail=str(r)[:400]))
+            continue
+        for tup, row in zip(r["tuples"], r["output"]):
+            n = nodes.get(tup[0])
+            e = by_loc.get((kind, n["line"], n["snippet"])) if n else None
+            if e is None:
+                continue
+            tags = e.get("javadoc") or []
+            stats["javadoc_accessor_rows"] += 1
+            if len({t[0] for t in tags}) < len(tags):
+                stats["javadoc_with_repeated_tag"] += 1
+            run.count(("doc", kind, e["line"], len(tags)))
+            for j, (tag, acc) in enumerate(DOC_ACCESSORS):
+                want = next((t[1] for t in tags if t[0] == tag), "")
+                if row[j] != want:
+                    run.violation("C05:%s:javadoc-accessor" % kind, "%s at line %d: getDoc().%s() is %r, the first @%s written is %r" % (kind, e["line"], acc, row[j], tag, want),
+                                  dict(kind=kind, accessor=acc, written_tags=tags, got=row[j], declaration=e["snippet"][:300], source=text))
+            wantp = [t[1] for t in tags if t[0] == "param"]
+            if list(row[len(DOC_ACCESSORS)] or []) != wantp:
+                run.violation("C05:%s:javadoc-accessor" % kind, "%s at line %d: getDoc().GetCommentParam() is %r, written: %r" % (kind, e["line"], row[len(DOC_ACCESSORS)], wantp),
+                              dict(kind=kind, accessor="GetCommentParam", written_tags=tags, got=row[len(DOC_ACCESSORS)], source=text))
+
+
 def run(run, kinds=("class_declaration", "method_declaration", "variable_declaration"), pid="C05", compare=expected_vs_real):
     C.build_driver()
     h, d = C.Harness(), C.Driver()
     rng = run.rng
-    quick = run.tier == "quick"
+    quick = run.depth == "quick"
     stats = collections.Counter()
     mism = []
     try:
@@ -72,10 +113,12 @@ def run(run, kinds=("class_declaration", "method_declaration", "variable_declara
             text, ents = g.file("K%d_" % i)
             src = text.encode("utf-8")
             file = "gen/F%d.java" % i
-            real = S.real_build(h, src, file)
+            real = S.real_build(h, src, file, graph="attrs")
             if real.get("outcome") != "ok":
                 run.violation(pid + ":scan-abnormal", "scan ends with %s" % real.get("outcome"), dict(source=text))
                 continue
+            if pid == "C05":
+                javadoc_accessors(run, h, ents, real, text, stats)
             # correspondence of the attribute model (flat view, entity by entity)
             am = d.call("scan-attrs", file, src.hex(), *S.flat_tree(real["tree"]))
             if am[0] == "ok":
